@@ -13,7 +13,9 @@
 //
 // List file format, one entry per line:  <path relative to repo> <flag>...
 // flags: sync (must import "sync"), sync? (redirect if imported), chan,
-// field=<name> (accesses to that struct field are scheduling points).
+// field=<name> (accesses to that struct field are scheduling points),
+// add=<file under the shim directory> (the path does not exist in the tree and
+// is mapped to that file: exports an internal function to the harness).
 package main
 
 import (
@@ -73,6 +75,22 @@ func main() {
 			flags[x] = true
 		}
 		src := filepath.Join(repoAbs, rel)
+		added := false
+		for x := range flags {
+			if strings.HasPrefix(x, "add=") {
+				// a file that does not exist in the tree: a virtual file of
+				// that package, taken from the shim directory (exports an
+				// internal function to the harness; /repo is not touched)
+				if _, err := os.Stat(src); err == nil {
+					die("%s already exists in the tree: cannot add it", rel)
+				}
+				replace[src] = filepath.Join(*shim, strings.TrimPrefix(x, "add="))
+				added = true
+			}
+		}
+		if added {
+			continue
+		}
 		n, code := rewrite(src, flags)
 		points += n
 		dst := filepath.Join(*out, rel)
